@@ -2,8 +2,11 @@ package chk
 
 import (
 	"fmt"
+	"go/token"
 	"go/types"
+	"regexp"
 	"sort"
+	"strings"
 
 	"golang.org/x/tools/go/ssa"
 )
@@ -79,7 +82,15 @@ func rulePanicAssert(p *Prog, r *Report, fns []*ssa.Function) {
 				continue
 			}
 			if why := p.contentRule(fn, ta); why != "" {
-				r.Assume(rule, name, construct, pos, why)
+				if strings.HasPrefix(why, "ok:") {
+					r.OK(rule, name, construct, pos, strings.TrimPrefix(why, "ok:"))
+				} else {
+					r.Assume(rule, name, construct, pos, why)
+				}
+				continue
+			}
+			if why := p.shapeContract(fn, ta); why != "" {
+				r.OK(rule, name, construct, pos, why)
 				continue
 			}
 			r.Bad(rule, name, construct, pos, fmt.Sprintf("operand may hold %s: the assertion to %s panics for the other types", s.String(), typeStr(ta.AssertedType)))
@@ -162,7 +173,87 @@ func (p *Prog) contentRule(fn *ssa.Function, ta *ssa.TypeAssert) string {
 	if n == 0 {
 		return ""
 	}
-	return fmt.Sprintf("container-content typing: all %d stores into component %d of %s arrays in the module store a %s; premise: elements beyond the fill counter are cut off before use (fill idiom, PANIC.idx)", n, k, typeStr(arr), typeStr(ta.AssertedType))
+	base := fmt.Sprintf("container-content typing: all %d stores into component %d of %s arrays in the module store a %s", n, k, typeStr(arr), typeStr(ta.AssertedType))
+	if ok, why := p.fillComplete(arr, k); ok {
+		return "ok:" + base + "; " + why
+	}
+	return base + "; premise: elements beyond the fill counter are cut off before use (fill idiom, PANIC.idx)"
+}
+
+// fillComplete: every slice of arr elements made in the module is filled by the fill idiom such that all elements kept by
+// the final S[:n] had component k stored: S is used only by S[n]... stores inside the loop and by one S[:n]; the counter is
+// incremented only in blocks that store component k of S[n] first.
+func (p *Prog) fillComplete(arr *types.Array, k int64) (bool, string) {
+	nMakes := 0
+	for _, f := range p.FuncList {
+		var makes []*ssa.MakeSlice
+		eachInstr(f, func(b *ssa.BasicBlock, in ssa.Instruction) {
+			if ms, ok := in.(*ssa.MakeSlice); ok {
+				if st, ok := ms.Type().Underlying().(*types.Slice); ok && types.Identical(st.Elem().Underlying(), arr) {
+					makes = append(makes, ms)
+				}
+			}
+		})
+		for _, ms := range makes {
+			nMakes++
+			var counter *ssa.Phi
+			nSlices := 0
+			for _, ref := range *ms.Referrers() {
+				switch x := ref.(type) {
+				case *ssa.IndexAddr:
+					ph, ok := x.Index.(*ssa.Phi)
+					if !ok || (counter != nil && counter != ph) {
+						return false, ""
+					}
+					counter = ph
+				case *ssa.Slice:
+					nSlices++
+					if x.Low != nil || x.High == nil {
+						return false, ""
+					}
+				case *ssa.DebugRef:
+				default:
+					return false, ""
+				}
+			}
+			if counter == nil || nSlices != 1 {
+				return false, ""
+			}
+			// every increment of the counter is preceded, in its block, by a store to S[counter][k]
+			okInc := true
+			eachInstr(f, func(b *ssa.BasicBlock, in ssa.Instruction) {
+				bo, ok := in.(*ssa.BinOp)
+				if !ok || bo.Op != token.ADD || bo.X != ssa.Value(counter) {
+					return
+				}
+				stored := false
+				for _, i2 := range b.Instrs {
+					if i2 == in {
+						break
+					}
+					if st, ok := i2.(*ssa.Store); ok {
+						if ia, ok := st.Addr.(*ssa.IndexAddr); ok {
+							if kk, isC := constInt(ia.Index); isC && kk == k {
+								if inner, ok := ia.X.(*ssa.IndexAddr); ok && inner.X == ssa.Value(ms) && inner.Index == ssa.Value(counter) {
+									stored = true
+								}
+							}
+						}
+					}
+				}
+				if !stored {
+					okInc = false
+				}
+			})
+			if !okInc {
+				return false, ""
+			}
+		}
+	}
+	if nMakes == 0 {
+		return false, ""
+	}
+	return true, fmt.Sprintf("all %d slices of such arrays are filled by the fill idiom (component stored before each counter increment, only S[:counter] escapes)", nMakes)
 }
 
 // isVarargsArray: a compiler-made argument array of a variadic call whose only uses are element stores and the final slice.
@@ -181,4 +272,85 @@ func isVarargsArray(v ssa.Value) bool {
 		}
 	}
 	return true
+}
+
+// rulePanicExplicit: explicit panic statements, MustCompile, reflect map operations, nil-typed reflect.TypeOf, integer division.
+func rulePanicExplicit(p *Prog, r *Report, fns []*ssa.Function) {
+	const rule = "PANIC.explicit"
+	n := 0
+	for _, fn := range fns {
+		name := p.Name(fn)
+		cz := p.canonFor(fn)
+		ord := newOrdinals()
+		for _, in := range instrsByPos(fn) {
+			switch x := in.(type) {
+			case *ssa.Panic:
+				n++
+				r.Bad(rule, name, ord.key(name, "panic statement"), p.Pos(in.Pos()), "explicit panic reachable from an API documented to return errors")
+			case *ssa.BinOp:
+				if (x.Op == token.QUO || x.Op == token.REM) && isIntType(x.Type()) {
+					n++
+					if k, ok := constInt(x.Y); ok && k != 0 {
+						r.OK(rule, name, ord.key(name, "integer division"), p.Pos(in.Pos()), "constant non-zero divisor")
+					} else {
+						r.Bad(rule, name, ord.key(name, "integer division"), p.Pos(in.Pos()), "divisor not known to be non-zero")
+					}
+				}
+			case ssa.CallInstruction:
+				c := x.Common()
+				switch {
+				case isCallTo(c, "regexp.MustCompile"):
+					n++
+					s, ok := constString(c.Args[0])
+					if ok {
+						if _, err := regexp.Compile(s); err == nil {
+							r.OK(rule, name, ord.key(name, "regexp.MustCompile"), p.Pos(in.Pos()), fmt.Sprintf("constant pattern %q compiled by the checker itself", s))
+							continue
+						}
+					}
+					r.Bad(rule, name, ord.key(name, "regexp.MustCompile"), p.Pos(in.Pos()), "pattern is not a constant that compiles")
+				case isCallTo(c, "(reflect.Value).MapKeys", "(reflect.Value).MapIndex", "(reflect.Value).MapRange"):
+					n++
+					recv := cz.of(c.Args[0])
+					ok := false
+					for _, g := range dominatingGuards(in.Block()) {
+						ng := normGuard(g)
+						bo, isB := ng.Cond.(*ssa.BinOp)
+						if !isB || (bo.Op == token.EQL) != ng.Pol {
+							continue
+						}
+						if k, isK := constInt(bo.Y); isK && k == 21 && cz.of(bo.X) == "(reflect.Value).Kind("+recv+")" {
+							ok = true
+						}
+					}
+					cons := ord.key(name, "reflect map operation "+staticCallee(c).Name())
+					if ok {
+						r.OK(rule, name, cons, p.Pos(in.Pos()), "dominated by Kind() == reflect.Map of the same value")
+					} else {
+						r.Bad(rule, name, cons, p.Pos(in.Pos()), "reflect map operation without a dominating Kind() == reflect.Map test of the same value")
+					}
+				case c.IsInvoke():
+					// method on the result of reflect.TypeOf(x): nil when x is the nil interface
+					if tc, ok := c.Value.(*ssa.Call); ok && isCallTo(&tc.Call, "reflect.TypeOf") {
+						n++
+						arg := tc.Call.Args[0]
+						ok := false
+						for _, g := range dominatingGuards(in.Block()) {
+							ng := normGuard(g)
+							if bo, isB := ng.Cond.(*ssa.BinOp); isB && isNilConst(bo.Y) && cz.of(bo.X) == cz.of(arg) && (bo.Op == token.NEQ) == ng.Pol {
+								ok = true
+							}
+						}
+						cons := ord.key(name, "method on reflect.TypeOf result")
+						if ok {
+							r.OK(rule, name, cons, p.Pos(in.Pos()), "argument known non-nil, so the Type is non-nil")
+						} else {
+							r.Bad(rule, name, cons, p.Pos(in.Pos()), "reflect.TypeOf(nil) returns a nil Type; the method call would panic")
+						}
+					}
+				}
+			}
+		}
+	}
+	r.OK(rule, "scope", "explicit panic sources enumerated", "", fmt.Sprintf("%d constructs in %d functions", n, len(fns)))
 }
